@@ -7,6 +7,7 @@ import Driver.C11
 import Driver.C20
 import Driver.C19
 import Driver.C18
+import Driver.Pipeline
 open Lean
 
 def dispatch (prop : String) (input : Json) : Except String Json :=
@@ -19,6 +20,10 @@ def dispatch (prop : String) (input : Json) : Except String Json :=
   | "C20" => Driver.C20.handle input
   | "C19" => Driver.C19.handle input
   | "C18" => Driver.C18.handle input
+  | "C06" => Driver.Pipeline.handle input
+  | "C09" => Driver.Pipeline.handle input
+  | "C10" => Driver.Pipeline.handle input
+  | "C12" => Driver.Pipeline.handle input
   | p => .error s!"no model for {p}"
 
 def handleLine (line : String) : String :=
